@@ -100,8 +100,13 @@ fn mode_c07(a: &Args) -> Value {
                 }
                 _ => (gen_float(&mut rng, k, true), gen_float(&mut rng, k + 31, false), gen_float(&mut rng, k + 57, false), "stratified"),
             };
-            *kinds.entry(kind).or_insert(0) += 1;
             let phc: i64 = *rng.pick(&[0i64, 0, 0, 1, 12345, 1 << 40]);
+            // Now and then the very same report again, with another PHC bound.
+            let (o, dl, dp, kind) = match sent.last() {
+                Some((prev, prev_phc, _)) if rng.chance(1, 12) && *prev_phc != phc => (prev.correction_bits, prev.delay_bits, prev.dispersion_bits, "same-report-other-phc"),
+                _ => (o, dl, dp, kind),
+            };
+            *kinds.entry(kind).or_insert(0) += 1;
             let r = sync_report(o, dl, dp);
             let as_of = (1000 + (k / 1_000_000_000) as i64, (k % 1_000_000_000) as i64);
             d.send(Message::ClockErrorBoundData((tracking_of(&r), phc, ts(as_of.0, as_of.1))));
